@@ -426,7 +426,7 @@ func (c08) Exec(c *core.Case) (out *core.Outcome) {
 				rng = fmt.Sprintf("bytes=%d-", a)
 				want = src[a:]
 			case "oob":
-				rng = fmt.Sprintf("bytes=%d-%d", a, len(src)+100)
+				rng = fmt.Sprintf("bytes=%d-%d", a, len(src)+[]int{0, 100}[(a+op.N)%2]) // also the first position past the end
 				valid = false // S3: the range must lie inside the source
 			case "reversed":
 				rng = fmt.Sprintf("bytes=%d-%d", b+1, a)
